@@ -1,7 +1,8 @@
 ---------------------------- MODULE MC_X04Filter ----------------------------
-(* The enumerated input space of the traffic filter for the Java interceptor, used three  *)
-(* ways (as specs/c19_interceptor/MC_C19Filter):                                          *)
-(*  (1) I => P over every case: every possible result of the transcription TrafficFilterJavaI *)
+(* The enumerated input space of the traffic filter for the Java / TypeScript interceptor  *)
+(* (constant Impl), used three ways (as specs/c19_interceptor/MC_C19Filter):               *)
+(*  (1) I => P over every case: every possible result of the transcription of Impl            *)
+(*      (TrafficFilterJavaI / TrafficFilterTsI)                                               *)
 (*      is permitted by the statement widened with the deviations Devs (constant-level      *)
 (*      ASSUME);  with Devs = {} the ASSUME must FAIL (the pinned deviations are real),       *)
 (*      with a flag of TrafficFilterJavaI set it must fail too (non-vacuity);                 *)
@@ -12,9 +13,11 @@
 (* (okhttp3.HttpUrl.host(): lower case, IPv6 literals canonical and without brackets); the   *)
 (* facts kind / ip / ip6 / rsv are how the Java platform resolver sees them (the executor's   *)
 (* `probe` command checks every one of them against InetAddress).                            *)
-EXTENDS TrafficFilterJavaI, TLC, Json, SequencesExt
+EXTENDS TrafficFilterJavaI, TrafficFilterTsI, TLC, Json, SequencesExt
 
-CONSTANTS Devs, Tier
+CONSTANTS Devs, Tier, Impl
+
+Results(c) == IF Impl = "java" THEN ResultsJ(c) ELSE ResultsT(c)
 
 D(h, kind, ip, rsv) == [h |-> h, hlow |-> h, hcanon |-> h, kind |-> kind, ip |-> ip, ip6 |-> <<>>, rsv |-> rsv]
 D6(h, g) == [h |-> h, hlow |-> h, hcanon |-> h, kind |-> "ip6", ip |-> <<>>, ip6 |-> g, rsv |-> "literal"]
@@ -98,12 +101,12 @@ Configs(tier) == CASE tier = "thorough" -> Lists2 \X Lists2
 
 Input(d, a, b, hd) ==
     [allow |-> a, block |-> b, host |-> d.h, hlow |-> d.hlow, hcanon |-> d.hcanon, kind |-> d.kind, ip |-> d.ip, ip6 |-> d.ip6,
-     rsv |-> d.rsv, header |-> hd, res |-> "", impl |-> "java", stage |-> ""]
+     rsv |-> d.rsv, header |-> hd, res |-> "", impl |-> Impl, stage |-> ""]
 
 \* (1) every possible result of the transcription is permitted
 Refines ==
     \A ab \in Configs(Tier), i \in DOMAIN Hosts, k \in DOMAIN Headers :
-        LET c == Input(Hosts[i], ab[1], ab[2], Headers[k]) IN \A r \in ResultsJ(c) : PermittedV(WithRes(c, r), Devs)
+        LET c == Input(Hosts[i], ab[1], ab[2], Headers[k]) IN \A r \in Results(c) : PermittedV(WithRes(c, r), Devs)
 
 NCases == Cardinality(Configs(Tier)) * Len(Hosts) * Len(Headers)
 
